@@ -1916,6 +1916,30 @@ func syncGuardObligations(w *World, r *Report, rule string) {
 			}
 		}
 		r.check(okEmpty, rule, "LoadDag/empty-transaction", w.Pos(fn.Pos()), "an empty transaction aborts the load", "IsEmpty test missing or not leading to cancel")
+		// every vertex of the stream is put to the emptiness test: an iteration of the checking loop reaches the next vertex
+		// only through the IsEmpty call (whatever else the vertex is — self-sealed, heavy, …)
+		for _, c := range f.calls(cn("transaction", "Transaction", "IsEmpty")) {
+			hdr := enclosingRangeHeader(c.Block())
+			if hdr == nil || len(hdr.Succs) != 2 {
+				r.undecided(rule, "LoadDag/every-vertex-tested-for-emptiness", lineOf(w, c), "the emptiness test sits in the loop over the loaded vertices", "no enclosing range loop")
+				continue
+			}
+			skipped := 0
+			walkFrom(nil, hdr.Succs[0], nil, func(x ssa.Instruction) bool {
+				if x == c.(ssa.Instruction) {
+					return true
+				}
+				if x.Block() == hdr {
+					skipped++
+					return true
+				}
+				if _, isRet := x.(*ssa.Return); isRet {
+					return true
+				}
+				return false
+			})
+			r.check(skipped == 0, rule, "LoadDag/every-vertex-tested-for-emptiness", lineOf(w, c), "no vertex of the stream gets past the checking loop without the IsEmpty test", fmt.Sprintf("%d ways to the next vertex without the emptiness test (a check that is taken only when another one did not match)", skipped))
+		}
 	}
 
 }
